@@ -158,6 +158,9 @@ fn sim_write(os: &mut SimOs, p: &str, bytes: &[u8], fault: Option<FaultSpec>) ->
         if !os.exists(&p) && missing_errno(&p) != libc::ENOENT {
             return e(missing_errno(&p));
         }
+        if os.readonly.contains(&p) && os.is_file(&p) {
+            return e(libc::EACCES);
+        }
         Ok(p)
     })();
     let p = match check {
@@ -215,6 +218,9 @@ fn sim_copy(os: &mut SimOs, from: &str, to: &str, fault: Option<FaultSpec>) -> (
         }
         if !os.exists(&to) && missing_errno(&to) != libc::ENOENT {
             return e(missing_errno(&to));
+        }
+        if os.readonly.contains(&to) && os.is_file(&to) {
+            return e(libc::EACCES);
         }
         Ok((from, to, bytes))
     })();
